@@ -139,6 +139,32 @@ def hyp_examples(tier):
 SHARD_MIN = 2
 
 
+def custom_units(tier, seed):
+    """coverage-guided campaign (thorough tier only): empty corpus and the committed seed corpus, several libFuzzer seeds"""
+    if tier != "thorough":
+        return []
+    units = []
+    for i in range(8):
+        units.append({"fuzz": "fuzz_c15.py", "runs": 40000, "seed": seed * 100 + i + 1, "corpus": None if i % 2 == 0 else "corpus_c15"})
+    return units
+
+
+def run_custom(payload, tier, seed, acc):
+    from vlib import VERIF_ROOT
+    from vlib.runner import run_atheris
+
+    corpus = os.path.join(VERIF_ROOT, "fuzz", payload["corpus"]) if payload["corpus"] else None
+    done, bad, note = run_atheris(payload["fuzz"], payload["runs"], payload["seed"], corpus, 192)
+    out = Outcome(evals=done, nontrivial=0, labels=["atheris:" + (note or ("seed-corpus" if corpus else "empty-corpus"))])
+    out.sample = {"atheris": payload, "executions": done, "note": note}
+    for data in bad:
+        text = data.decode("utf-8", "replace")
+        check_text(out, text, {"t": "text", "text": text})
+    if done == 0 and not note:
+        out.skip = "atheris produced no executions"
+    acc.add(payload, out)
+
+
 def _mutant_case(rng):
     case = progen.generate(rng, progen.Profile(max_stmts=8, big_incbin=False, incbin=False, reloc_ram=False))
     src, inc, _ = render.render(case["ir"], render.Layout(random.Random(rng.randint(0, 1 << 30)), knobs=["blank", "indent", "linecomment", "eolcomment", "blockcomment"]))
